@@ -278,7 +278,16 @@ fn run_fixed(cfg: &Cfg, want: &[Vec<u8>], mode: &str) -> Obs {
                 let p = dir.join("src.bin");
                 std::fs::write(&p, o.content()).map_err(|e| e.to_string())?;
                 let url = url::Url::parse(&o.location).unwrap();
-                let desc = if mode == "file" {
+                let desc = if mode == "file-ram" {
+                    ObjectDesc::create_from_file(&p, Some(&url), &o.ctype, true, !cfg.no_md5, o.transfer_config()?).map_err(|e| e.0.to_string())?
+                } else if mode == "builder-file" {
+                    flute::sender::CreateFromFile::builder().path(p.clone()).content_location(Some(url.clone())).content_type(o.ctype.clone()).cache_in_ram(cfg.len % 2 == 0).compute_md5(!cfg.no_md5).config(o.transfer_config()?).build().create().map_err(|e| e.0.to_string())?
+                } else if mode == "builder-buffer" {
+                    flute::sender::CreateFromBuffer::builder().content(o.content()).content_location(url.clone()).content_type(o.ctype.clone()).compute_md5(!cfg.no_md5).config(o.transfer_config()?).build().create().map_err(|e| e.0.to_string())?
+                } else if mode == "builder-stream" {
+                    let f = std::fs::File::open(&p).map_err(|e| e.to_string())?;
+                    flute::sender::CreateFromStream::builder().stream(Box::new(f)).content_location(url.clone()).content_type(o.ctype.clone()).compute_md5(!cfg.no_md5).config(o.transfer_config()?).build().create().map_err(|e| e.0.to_string())?
+                } else if mode == "file" {
                     ObjectDesc::create_from_file(&p, Some(&url), &o.ctype, false, !cfg.no_md5, o.transfer_config()?).map_err(|e| e.0.to_string())?
                 } else {
                     use std::io::Seek;
@@ -383,7 +392,7 @@ pub fn run(thorough: bool) -> i32 {
                 return (out, 0u64, 0u64, false);
             }
         };
-        for mode in ["one", "two", "e+1", "alt", "file", "bufreader", "cursor", "cursor-bufreader", "take-chain"] {
+        for mode in ["one", "two", "e+1", "alt", "file", "bufreader", "cursor", "cursor-bufreader", "take-chain", "file-ram", "builder-file", "builder-buffer", "builder-stream"] {
             out.push((Case { cfg: cfg.clone(), mode: mode.into(), choices: vec![] }, run_fixed(cfg, &want, mode)));
         }
         // deviation-bounded exploration of per-read sizes, single-threaded inside this worker
